@@ -75,6 +75,11 @@ func c09Alphabet() []bop {
 		ops = append(ops, bop{name: "Label(" + kn(k) + ",L)", kind: "label", key: k})
 	}
 
+	// the sync.Map-style entry point of the sharded backends (two of the colliding keys)
+	for k := 0; k < 2; k++ {
+		ops = append(ops, bop{name: "Load(" + kn(k) + ")", kind: "load", key: k})
+	}
+
 	return ops
 }
 
@@ -179,6 +184,26 @@ func (s *c09state) apply(o bop) (string, bool) {
 		} else {
 			obs = msg
 		}
+	case "load":
+		if s.b.Kind() == "SyncMap" {
+			return "n/a", true // SyncMap has no Load/Store
+		}
+
+		v, found := s.b.Load(s.arg(o.key))
+		s.after()
+
+		me, st, edge := s.m.Read(string(s.keys[o.key]), now, false)
+
+		switch {
+		case found && (st != ref.Hit && !edge):
+			return fmt.Sprintf("key isolation: Load returned (%v, true) for a key the model holds as %s", v, st), false
+		case found && v != me.V:
+			return fmt.Sprintf("key isolation: Load returned value %v, the key's own value is %v", v, me.V), false
+		case !found && st == ref.Hit && !edge && !s.missJustified(o.key):
+			return "key isolation: Load misses a fresh entry without a colliding write to explain it", false
+		}
+
+		obs = fmt.Sprint(found)
 	case "delete":
 		err := s.b.Delete(ctx, s.arg(o.key))
 		s.after()
